@@ -25,7 +25,7 @@ def run(ctx):
     from dtaidistance import dtw, dtw_ndim
     from dtaidistance.clustering.kmeans import KMeans
     rng = ctx.rng
-    N = 45 if ctx.quick else 900
+    N = ctx.scale(500, 5000)
     for it in range(N):
         k = rng.randint(1, 4)
         n = rng.randint(k + 1, 15)
